@@ -321,6 +321,41 @@ theorem c06_due_time_exact (sp : Spec) (h : sp.TimesOk) (k : Nat) :
     · omega
   · simp [hp]
 
+/-- **Which programs run in a cycle**: exactly the programs of the tasks executed in that cycle
+and the programs that belong to no task. -/
+theorem c06_program_runs_iff (tasks : List Task) (n : Nat) (sts : List TState) (sv : Nat → Bool)
+    (now : Int) (p : Nat) :
+    p ∈ (cycle tasks n sts sv now).2.programs ↔
+      (∃ i ∈ (cycle tasks n sts sv now).2.tasks, p ∈ programsOf tasks i) ∨
+      (p < n ∧ p ∉ scheduled tasks) := by
+  simp only [cycle, List.mem_append, List.mem_flatMap, List.mem_map, background, List.mem_filter,
+    List.mem_range, Bool.not_eq_true', List.contains_eq_mem, decide_eq_false_iff_not]
+  constructor
+  · rintro (⟨r, hr, hp⟩ | h)
+    · exact .inl ⟨r.index, ⟨r, hr, rfl⟩, hp⟩
+    · exact .inr h
+  · rintro (⟨i, ⟨r, hr, rfl⟩, hp⟩ | h)
+    · exact .inl ⟨r, hr, hp⟩
+    · exact .inr h
+
+/-- A program without a task runs in **every** cycle, whatever the clock and the SINGLE
+variables do. -/
+theorem c06_background_every_cycle (tasks : List Task) (n : Nat) (sts : List TState)
+    (sv : Nat → Bool) (now : Int) (p : Nat) (hp : p < n) (hns : p ∉ scheduled tasks) :
+    p ∈ (cycle tasks n sts sv now).2.programs :=
+  (c06_program_runs_iff tasks n sts sv now p).2 (.inr ⟨hp, hns⟩)
+
+/-- A program that belongs to a task does not run in a cycle in which none of its tasks is
+executed. -/
+theorem c06_task_program_waits (tasks : List Task) (n : Nat) (sts : List TState)
+    (sv : Nat → Bool) (now : Int) (p : Nat) (hs : p ∈ scheduled tasks)
+    (hno : ∀ i ∈ (cycle tasks n sts sv now).2.tasks, p ∉ programsOf tasks i) :
+    p ∉ (cycle tasks n sts sv now).2.programs := by
+  rw [c06_program_runs_iff]
+  rintro (⟨i, hi, hp⟩ | ⟨_, h⟩)
+  · exact hno i hi hp
+  · exact h hs
+
 /-- Non-vacuity of `c06_order_unique` / `c06_order_reading`: equal priorities are ordered by due
 time, equal due times by declaration index, whatever the order of the ready list. -/
 example :
